@@ -100,18 +100,24 @@ where
         let (io, stream) = stream.replace_io(());
         let host = stream.hostname();
 
-        let config = self
+        // an invalid server name (empty, too long) is an error of this call, not a reason to panic
+        let ssl_stream = self
             .connector
             .configure()
-            .expect("SSL connect configuration was invalid.");
+            .and_then(|config| config.into_ssl(host))
+            .and_then(|ssl| AsyncSslStream::new(ssl, io));
 
-        let ssl = config
-            .into_ssl(host)
-            .expect("SSL connect configuration was invalid.");
-
-        ConnectFut {
-            io: Some(AsyncSslStream::new(ssl, io).unwrap()),
-            stream: Some(stream),
+        match ssl_stream {
+            Ok(io) => ConnectFut {
+                io: Some(io),
+                stream: Some(stream),
+                err: None,
+            },
+            Err(err) => ConnectFut {
+                io: None,
+                stream: None,
+                err: Some(io::Error::new(io::ErrorKind::InvalidInput, err)),
+            },
         }
     }
 }
@@ -121,6 +127,7 @@ where
 pub struct ConnectFut<R, IO> {
     io: Option<AsyncSslStream<IO>>,
     stream: Option<Connection<R, ()>>,
+    err: Option<io::Error>,
 }
 
 impl<R: Host, IO> Future for ConnectFut<R, IO>
@@ -132,6 +139,10 @@ where
 
     fn poll(self: Pin<&mut Self>, cx: &mut Context<'_>) -> Poll<Self::Output> {
         let this = self.get_mut();
+
+        if let Some(err) = this.err.take() {
+            return Poll::Ready(Err(err));
+        }
 
         match ready!(Pin::new(this.io.as_mut().unwrap()).poll_connect(cx)) {
             Ok(_) => {
